@@ -177,6 +177,7 @@ def run(tier):
                                   params=["empty", "int_p"])
     dcases = rnd.sample(dcases, min(len(dcases), 5000 if tier == "quick" else 60000))
     ditems = [(src, "cdecl:" + label) for c in dcases for label, src, get in c03.render(c)]
+    ditems += [(src, "cdecl2") for src in c03.declaration_programs(ctx, rnd, 1500 if tier == "quick" else 20000)]
     run_population(ctx, ditems, "declarations", rnd, 500 if tier == "quick" else 5000)
     # texts the parser accepts although no grammar machine derives them: token-level mutants of derived programs that
     # still parse (the property quantifies over every source text that parses, valid C or not)
